@@ -9,6 +9,9 @@ namespace MpycV.GFpX
 /-- all polynomials over GF(p) with integer value `< p^k`, i.e. of degree `< k` (including 0) -/
 def polys (p k : Nat) : List Poly := (List.range (p ^ k)).map (digits p)
 
+/-- all binary polynomials (bitmasks) of degree `< k` -/
+def binPolys (k : Nat) : List Nat := List.range (2 ^ k)
+
 /-- all monic polynomials of degree exactly `j` -/
 def monicsOfDegree (p j : Nat) : List Poly :=
   (List.range (p ^ j)).map fun k =>
